@@ -47,13 +47,26 @@ func runC19(c map[string]interface{}) []Event {
 	e["out"] = safely(func() {
 		net := route.NewNetwork(opt)
 		var lines []geom.LineString
-		for _, lv := range arr(c["links"]) {
+		from, to := arr(c["from"]), arr(c["to"])
+		// "pre": the same query (both directions) is also asked when only the first `pre` links are in the network; the
+		// answer that counts is the one after all AddLink calls - a network is the sum of its links, whatever was asked
+		// of it in between
+		pre := -1
+		if v, ok := c["pre"]; ok {
+			pre = num(v)
+		}
+		for i, lv := range arr(c["links"]) {
+			if i == pre {
+				a := geom.Point{X: float64(num(from[0])), Y: float64(num(from[1]))}
+				b := geom.Point{X: float64(num(to[0])), Y: float64(num(to[1]))}
+				net.ShortestRoute(a, b)
+				net.ShortestRoute(b, a)
+			}
 			l := lv.(map[string]interface{})
 			ln := c19Line(pos[num(l["u"])-1], pos[num(l["v"])-1], num(l["extra"]))
 			lines = append(lines, ln)
 			net.AddLink(ln, float64(num(l["speed"])))
 		}
-		from, to := arr(c["from"]), arr(c["to"])
 		r, dist, tm, _, _ := net.ShortestRoute(geom.Point{X: float64(num(from[0])), Y: float64(num(from[1]))},
 			geom.Point{X: float64(num(to[0])), Y: float64(num(to[1]))})
 		ids := []interface{}{}
